@@ -39,7 +39,13 @@ type c09Scen struct {
 	IDs  []string `json:"ids"`
 	Vers []int    `json:"vers"`
 	Ops  []c09Op  `json:"ops"`
+	// LongLived: client 0 (v5) asks for a Session Expiry Interval of 2 s and its connection - which it keeps until
+	// the crash - is 2.1 s old before anything else happens: the connection has outlived the expiry interval when
+	// the broker dies, and the session must still be there for a client that reconnects right after the restart.
+	LongLived bool `json:"long_lived,omitempty"`
 }
+
+const c09ShortExpiry = 2 // seconds
 
 var c09IDPool = []string{"s1", "ub2", "b:3", ":c", "sub:x", "plain", "bus"}
 var c09Filters = []string{"t/a", "t/+", "t/#", "$share/g/t/a"}
@@ -52,6 +58,9 @@ func genC09(t *rapid.T) c09Scen {
 	for i := 0; i < n; i++ {
 		s.IDs = append(s.IDs, perm[i])
 		s.Vers = append(s.Vers, rapid.SampledFrom([]int{4, 5}).Draw(t, "v"))
+	}
+	if s.Vers[0] == 5 && rapid.IntRange(0, 4).Draw(t, "longlived") == 0 {
+		s.LongLived = true
 	}
 	nops := rapid.IntRange(3, 12).Draw(t, "nops")
 	s.Ops = append(s.Ops, c09Op{Op: "conn", Client: 0})
@@ -143,10 +152,13 @@ func settleJournal(r *miniredis.Server) int {
 	return last
 }
 
-func c09Connect(b *fixture.Broker, id string, v int, clean bool, auto bool) (*fixture.Client, *mw.Packet, error) {
+func c09Connect(b *fixture.Broker, id string, v int, clean bool, auto bool, expiry ...uint32) (*fixture.Client, *mw.Packet, error) {
 	o := fixture.ConnectOpts{ID: id, V: ver(v), CleanStart: clean, AutoAck: auto}
 	if v == 5 {
 		o.Props = &mw.Props{SessionExpiry: u32p(3600)}
+		if len(expiry) > 0 {
+			o.Props.SessionExpiry = u32p(expiry[0])
+		}
 	}
 	return b.Connect(o)
 }
@@ -214,9 +226,17 @@ func runC09(s c09Scen, c *ev.Case) *ev.Violation {
 				c.Count("skipped_ops", 1)
 				continue
 			}
-			cl, ack, err := c09Connect(b, s.IDs[op.Client], s.Vers[op.Client], false, !holding[op.Client])
+			exp := uint32(3600)
+			if s.LongLived && op.Client == 0 {
+				exp = c09ShortExpiry
+			}
+			cl, ack, err := c09Connect(b, s.IDs[op.Client], s.Vers[op.Client], false, !holding[op.Client], exp)
 			if err != nil || ack.ReasonCode != 0 {
 				return ev.Violf("C09.connect", "connect %q on the redis backend failed: %v %v", s.IDs[op.Client], ack, err)
+			}
+			if s.LongLived && op.Client == 0 {
+				c.Label("connection_outlives_session_expiry")
+				time.Sleep(c09ShortExpiry*time.Second + 100*time.Millisecond)
 			}
 			all = append(all, cl)
 			cur[op.Client], online[op.Client] = cl, true
@@ -349,7 +369,7 @@ func runC09(s c09Scen, c *ev.Case) *ev.Violation {
 			}
 			c.Label("holding_subscriber")
 		case "disc":
-			if !online[op.Client] {
+			if !online[op.Client] || (s.LongLived && op.Client == 0) {
 				c.Count("skipped_ops", 1)
 				continue
 			}
@@ -417,6 +437,7 @@ func c09CheckPrefix(s c09Scen, journal []miniredis.Cmd, k int, state *c09State, 
 		return harnessErr("materialise: %v", err)
 	}
 	defer r2.Close()
+	started := time.Now()
 	b2, err := fixture.Start(fixture.Opts{Config: fixture.WithRedis(fixture.BaseConfig(), r2.Addr())})
 	if err != nil {
 		return ev.Violf("C09.startup", "broker does not start on the store state after %d of %d storage commands: %v", k, len(journal), err)
@@ -540,6 +561,12 @@ func c09CheckPrefix(s c09Scen, journal []miniredis.Cmd, k int, state *c09State, 
 		cl, ack, err := c09Connect(b2, id, s.Vers[ci], false, true)
 		if err != nil || ack == nil || ack.ReasonCode != 0 {
 			return ev.Violf("C09.connect-after-restart", "client %q cannot reconnect after restart: %v %v", id, ack, err).With("client_id", id)
+		}
+		if s.LongLived && ci == 0 && time.Since(started) > (c09ShortExpiry*time.Second)/2 {
+			// the machine is so slow that the 2 s session may really have expired since the restart: not decidable
+			c.Count("long_lived_reconnect_too_late", 1)
+			cl.Kill()
+			continue
 		}
 		if !ack.SessionPresent {
 			cl.Kill()
